@@ -1038,10 +1038,11 @@ package agent
 // ---- C17: a peer disconnect always clears the relay entries of that peer ----
 //@ ghost var c17pc bool
 //@ ghost var c17del bool
+//@ ghost var c17n int
 
 //@ func (*Agent).handlePeerDisconnect
 //@ prop C17
-//@ modifies *, c17pc, c17del
+//@ modifies *, c17pc, c17del, c17n
 //@ ghostinit c17pc = false
 //@ at call cleanupRelaysForPeer set c17pc = ($1 == conn.RemoteID)
 //@ ensures c17pc
@@ -1049,7 +1050,14 @@ package agent
 
 //@ func (*Agent).cleanupRelaysForPeer
 //@ prop C17
-//@ modifies *, c17del
+//@ modifies *, c17del, c17n
 //@ ghostinit c17del = false
-//@ at call DeleteByPeer set c17del = ($0 == a.tcpRelay && $1 == peerID)
+//@ at call DeleteByPeer#0 set c17del = ($0 == a.tcpRelay && $1 == peerID)
 //@ ensures c17del
+//@ at call DeleteByPeer#0 assert $0 == a.tcpRelay && $1 == peerID
+//@ at call DeleteByPeer#1 assert $0 == a.udpRelay && $1 == peerID
+//@ at call DeleteByPeer#2 assert $0 == a.icmpRelay && $1 == peerID
+//@ ghostinit c17n = 0
+//@ after call DeleteByPeer set c17n = c17n + 1
+//@ ensures c17n == 3
+//@ note all three relay tables (TCP streams, UDP associations, ICMP sessions) are cleared of the peer on every path
